@@ -20,7 +20,7 @@ def obligations(tier):
            "TIMING_LINE_PATTERN", "TIMESTAMP_PATTERN")
     for f, b in (("vtt_c1_start", "HH:MM:SS.mmm, NOTE block, symbolic shift"), ("vtt_c1_end_short", "MM:SS.mmm, cue id, symbolic shift"),
                  ("vtt_c2_start_h1", "H:MM:SS.mmm"), ("vtt_c2_end_h3", "HHH:MM:SS.mmm + cue settings"),
-                 ("vtt_strict", "ignore_timing_errors=False")):
+                 ("vtt_strict", "ignore_timing_errors=False"), ("vtt_strict_shift", "ignore_timing_errors=False with a symbolic shift of 0..10^8 ms")):
         obs.append(ch(f, "harness.C01_vtt", timeout=T, functions=VTT,
                       bounds=f"all stamps of the shape ({b}); |shift| <= 10^8 ms; 2-3 cues"))
     DF = ("pycaption.dfxp.base.DFXPReader._find_and_convert_times", "_convert_timestamp_to_microseconds",
